@@ -34,7 +34,7 @@ NSAMP = [1, 3, 10000]
 PERIODS = [-2, -1, 0, 1, 2, 3]
 CUSTOM_SCALAR = 2.5
 CUSTOM_PAIR = (2.5, 0.75)
-SUBPOOLS = {'S1': ('ramp', 'gauss', 'const'), 'S2': ('two', 'huge', 'tiny'), 'S3': ('i8lead', 'u8lead', 'f32off')}
+SUBPOOLS = {'S1': ('ramp', 'gauss', 'const'), 'S2': ('two', 'huge', 'tiny'), 'S3': ('i8lead', 'u8lead', 'f32off'), 'S4': ('lead01', 'ramp', 'lead07')}
 CONSTS = [0.0, 0.1, 1.9, -2.7, 7.0, 1e150, 3.3e150, 1e-150]
 CONST_LENS = [1, 2, 3, 7, 10, 100]
 ERR = dict(over='raise', invalid='raise', divide='raise')     # underflow is left alone
@@ -67,6 +67,10 @@ def pool(seed):
     P['i16'] = rng.integers(-30000, 30000, L).astype(np.int16)
     P['f32off'] = (4096.0 + np.linspace(-2.0, 2.0, L)[rng.permutation(L)]).astype(np.float32)
     P['f16off'] = (300.0 + np.linspace(-4.0, 4.0, L)[rng.permutation(L)]).astype(np.float16)
+    # the leading samples (all that the smallest estimate windows see) are one constant whose floating-point mean is
+    # inexact (mean([0.1]*3) != 0.1), the rest varies: the estimate window, not the array, decides "zero variance"
+    P['lead01'] = np.concatenate([np.full(3, 0.1), np.linspace(-3.1, 3.3, L - 3)[rng.permutation(L - 3)]])
+    P['lead07'] = np.concatenate([np.full(3, 0.7), rng.normal(0.7, 2.0, L - 3)])
     for a in P.values():
         a.setflags(write=False)
     _POOLS[seed] = P
@@ -480,7 +484,8 @@ CPAIRS = [('ramp', 'gauss'), ('ramp', 'const'), ('gauss', 'const'), ('const', 'r
 
 
 def _func_tags():
-    tags = ['ramp', 'gauss', 'const', 'two', 'huge', 'tiny', 'single', 'long', 'offset', 'offset5', 'i8lead', 'u8lead', 'i16', 'f32off', 'f16off']
+    tags = ['ramp', 'gauss', 'const', 'two', 'huge', 'tiny', 'single', 'long', 'offset', 'offset5', 'i8lead', 'u8lead', 'i16', 'f32off', 'f16off',
+            'lead01', 'lead07']
     for v in CONSTS:
         for n in CONST_LENS:
             tags.append('c:%r:%d' % (v, n))
@@ -656,6 +661,8 @@ def run(ctx):
         boxes.append(dict(name='C', depth=3, subs=['S2'], targets=T4))
         # D: the other sample types (integer voltages with constant leading samples, single precision on an offset)
         boxes.append(dict(name='D', depth=3, subs=['S3'], targets=T4, nsamp=[3, 10000], bits=[8, 4]))
+        # E: arrays whose estimate window is constant (inexact mean) while the array is not
+        boxes.append(dict(name='E', depth=3, subs=['S4'], targets=T4[:2], nsamp=[3], bits=[8, 4]))
     else:
         # A: the complete parameter product, every sequence of length 4;  A5: length 5 where the deviation
         # estimate is not trivially zero (N > 1);  B: length 6 (period 5 included), reduced targets / bit widths
@@ -665,6 +672,7 @@ def run(ctx):
                           bits=[2, 3, 5, 8]))
         boxes.append(dict(name='C', depth=4, subs=['S2']))
         boxes.append(dict(name='D', depth=4, subs=['S3'], nsamp=[3, 10000]))
+        boxes.append(dict(name='E', depth=4, subs=['S4'], targets=T4, nsamp=[3, 10000], bits=[8, 4, 2]))
     bounds = []
     fcases = []
     for N in NSAMP:
